@@ -133,7 +133,15 @@ def build_from_witness(w):
 
 
 def oracle(w):
-    """The property on the real code for one witness.  -> (fails, detail)"""
+    """The property on the real code for one witness.  -> (fails, detail).  The witness is a valid circuit: any
+    exception of the implementation (other than the refusal of an out-of-range condition value) is a failure."""
+    try:
+        return _oracle(w)
+    except Exception as e:
+        return True, "the implementation raised " + type(e).__name__ + ": " + str(e)[:120]
+
+
+def _oracle(w):
     import qutip
     from qutip_qip.circuit import CircuitSimulator
     n, ncb = w["n"], w["ncb"]
